@@ -6,7 +6,7 @@ D="$1"; LOG="$2"; WT=/tmp/wt-confirm
 export CARGO_NET_OFFLINE=true CARGO_TARGET_DIR=$WT/target
 [ -d $WT ] || git -C /repo worktree add -q --detach $WT HEAD || exit 9
 cd $WT && git checkout -q --detach $(git -C /repo rev-parse HEAD) && git checkout -- . && git clean -fdq -e target
-NAME=$(basename "$D"); DEMO=$(ls "$D"/demo*.rs | head -1); DN=$(basename "$DEMO" .rs)
+NAME=$(basename "$D"); DEMO=$(ls "$D"/*.rs | head -1); DN=$(basename "$DEMO" .rs)
 git apply "$D/patch.diff" || { echo "{\"name\":\"$NAME\",\"applies\":false}" >> "$LOG"; exit 1; }
 cargo build --offline >/tmp/confirm_build.log 2>&1; BUILD=$?
 SUITE=$(cargo nextest run --workspace --no-fail-fast --test-threads 8 --offline 2>&1 | grep -E "Summary" | tail -1)
